@@ -47,7 +47,7 @@ type Op struct {
 	// in explicit (replay) form only when the operation actually used them
 	Clock *ClockJ `json:"clock,omitempty"`
 	Noise string  `json:"noise,omitempty"` // limit-query | limit-schema | fmt-schema | fmt-doc | vars | argmaps | rules | json
-	Arg   uint64 `json:"arg,omitempty"`
+	Arg   uint64  `json:"arg,omitempty"`
 }
 
 type ClockJ struct {
@@ -108,7 +108,7 @@ type execState struct {
 	schemas []*ast.Schema
 	docs    map[[2]int]*ast.QueryDocument
 	ssrc    map[int][]*ast.Source // reused schema sources
-	dsrc    map[int]*ast.Source // reused document sources
+	dsrc    map[int]*ast.Source   // reused document sources
 }
 
 func cutsOf(s *Session, i int) []int {
